@@ -1487,3 +1487,200 @@ Proof.
   - intros a c Ha Hc. apply coords_union_complete; [|intros []]. apply in_flat_map. now exists a.
   - intros c' H. apply coords_union_sound in H as [H _]. now apply in_flat_map in H.
 Qed.
+
+(* ================================================================ every computed MapSpec output is a variable *)
+Lemma reorder_inner_keys (names : list str) k : forall (acc : list (str * list str)) n,
+  In n (map fst (fold_left (fun acc2 n0 => dupd str_eqb acc2 n0 (fun old => set_add k (odefault [] old))) names acc))
+  <-> In n (map fst acc) \/ In n names.
+Proof.
+  induction names as [|n0 names IH]; intros acc n; cbn [fold_left]; [cbn; tauto|].
+  rewrite IH, (dupd_keys str_eqb str_eqb_eq). cbn. intuition auto.
+Qed.
+
+Lemma reorder_keys d n : In n (map fst (reorder d)) <-> exists k l, In (k, l) d /\ In n l.
+Proof.
+  unfold reorder.
+  assert (G : forall acc : list (str * list str),
+    In n (map fst (fold_left (fun acc kv =>
+                    fold_left (fun acc2 n0 => dupd str_eqb acc2 n0 (fun old => set_add (fst kv) (odefault [] old)))
+                              (snd kv) acc) d acc))
+    <-> In n (map fst acc) \/ exists k l, In (k, l) d /\ In n l).
+  { induction d as [|[k0 l0] d IH]; intros acc; cbn [fold_left fst snd].
+    - split; [now left|]. intros [H|[k [l [[] _]]]]. assumption.
+    - rewrite IH, reorder_inner_keys. split.
+      + intros [[H|H]|[k [l [Hl Hn]]]]; auto.
+        * right. exists k0, l0. split; [now left|assumption].
+        * right. exists k, l. split; [now right|assumption].
+      + intros [H|[k [l [[E|Hl] Hn]]]]; auto.
+        * injection E as -> ->. auto.
+        * right. now exists k, l. }
+  rewrite G. cbn. split; [intros [[]|H]; assumption|now right].
+Qed.
+
+(* the names that `_xarray` looks at for output o are sources: never themselves computed element-wise *)
+Lemma target_names_sources specs tr o n ax :
+  NoDup (out_names specs) -> trace specs = Ok tr -> In (n, ax) (target_of tr o) ->
+  computed_by specs n = None.
+Proof.
+  intros Hnd Htr Hin. unfold target_of in Hin.
+  destruct (dget str_eqb tr o) as [l|] eqn:G; cbn in Hin; [|destruct Hin].
+  apply (dget_In str_eqb str_eqb_eq) in G. unfold trace in Htr.
+  destruct (mapM _ (mapping_keys specs)) as [rows|] eqn:R; [|discriminate]. cbn [bind] in Htr.
+  injection Htr as <-. apply filter_In in G as [G _].
+  apply mapM_inv in R. destruct (Forall2_In_r _ _ _ _ R G) as [o' [_ Ho']].
+  destruct (trace_one specs o') as [l'|] eqn:T; [|discriminate]. cbn in Ho'. injection Ho' as -> <-.
+  unfold trace_one in T. destruct (trace_dep (trace_fuel specs) specs o) as [d|] eqn:D; [|discriminate].
+  cbn [bind] in T. pose proof (mapM_fst _ _ _ T) as Hk.
+  assert (Hn : In n (map fst (reorder d))).
+  { rewrite <- Hk. apply in_map_iff. now exists (n, ax). }
+  apply reorder_keys in Hn as [k [l0 [Hl0 Hn]]].
+  apply (In_dget str_eqb str_eqb_eq) in Hl0; [|exact (trace_dep_NoDup specs (trace_fuel specs) o d D)].
+  apply (carried_source specs k n (trace_fuel specs) o).
+  apply (trace_dep_carried specs Hnd _ _ _ D). now exists l0.
+Qed.
+
+Lemma coords_of_srcs specs inputs loadable li o cs c n :
+  NoDup (out_names specs) -> coords_of specs inputs loadable li o = Ok cs -> In c cs -> In n (co_srcs c) ->
+  computed_by specs n = None.
+Proof.
+  intros Hnd Hcs Hc Hn. unfold coords_of in Hcs.
+  destruct (coords_raw_of specs inputs loadable li o) as [raw|] eqn:R; [|discriminate].
+  cbn [bind] in Hcs. injection Hcs as <-. apply coords_dict_sub in Hc.
+  destruct (coords_raw_of_inv _ _ _ _ _ _ R) as [tr [Htr ->]].
+  unfold coords_raw in Hc. apply in_flat_map in Hc as [[ax names] [Hg Hc]].
+  apply group_coords_sub in Hc as [_ Hsub]. apply Hsub in Hn. cbn [snd] in Hn.
+  apply (In_dget key_eqb key_eqb_eq) in Hg; [|apply group_NoDup].
+  assert (Hk : In (n, ax) (kept_of specs inputs li (target_of tr o))) by (apply group_get; now exists names).
+  unfold kept_of in Hk. apply filter_In in Hk as [Hk _].
+  exact (target_names_sources _ _ _ _ _ Hnd Htr Hk).
+Qed.
+
+Lemma coords_of_name specs inputs loadable li o cs c :
+  coords_of specs inputs loadable li o = Ok cs -> In c cs ->
+  co_name c = join (s ":") (co_srcs c) /\ co_srcs c <> [].
+Proof.
+  intros Hcs Hc. unfold coords_of in Hcs.
+  destruct (coords_raw_of specs inputs loadable li o) as [raw|] eqn:R; [|discriminate].
+  cbn [bind] in Hcs. injection Hcs as <-. apply coords_dict_sub in Hc.
+  destruct (coords_raw_of_inv _ _ _ _ _ _ R) as [tr [Htr ->]].
+  unfold coords_raw in Hc. apply in_flat_map in Hc as [g [Hg Hc]].
+  destruct (group_coords_name g c Hc (group_nonempty _ g Hg)) as [H1 [H2 _]]. auto.
+Qed.
+
+Lemma dset_da_In d a b : In b (dset_da d a) -> b = a \/ In b d.
+Proof.
+  induction d as [|a0 d IH]; cbn.
+  - intros [<-|[]]. now left.
+  - destruct (str_eqb (da_name a) (da_name a0)).
+    + intros [<-|H]; [now left|right; now right].
+    + intros [<-|H]; [right; now left|]. destruct (IH H); auto.
+Qed.
+
+Lemma dset_fold_In arrays : forall acc b, In b (fold_left dset_da arrays acc) -> In b acc \/ In b arrays.
+Proof.
+  induction arrays as [|a arrays IH]; intros acc b H; cbn [fold_left] in H; [now left|].
+  destruct (IH _ _ H) as [H'|H']; [|right; now right].
+  apply dset_da_In in H' as [->|H']; [right; now left|now left].
+Qed.
+
+Lemma dset_da_has d a : In (da_name a) (map da_name (dset_da d a)).
+Proof.
+  induction d as [|a0 d IH]; cbn; [now left|].
+  destruct (str_eqb (da_name a) (da_name a0)); cbn; [now left|now right].
+Qed.
+
+Lemma dset_da_keeps d a n : In n (map da_name d) -> In n (map da_name (dset_da d a)).
+Proof.
+  induction d as [|a0 d IH]; cbn; [tauto|].
+  destruct (str_eqb (da_name a) (da_name a0)) eqn:E; cbn.
+  - apply str_eqb_eq in E. intros [<-|H]; [now left|now right].
+  - intros [H|H]; [now left|right; now apply IH].
+Qed.
+
+Lemma dset_fold_has arrays : forall acc n,
+  In n (map da_name acc) \/ In n (map da_name arrays) -> In n (map da_name (fold_left dset_da arrays acc)).
+Proof.
+  induction arrays as [|a arrays IH]; intros acc n H; cbn [fold_left].
+  - destruct H as [H|[]]. assumption.
+  - apply IH. destruct H as [H|[<-|H]]; [left; now apply dset_da_keeps|left; apply dset_da_has|now right].
+Qed.
+
+(* dataset level: every labelled array of the dataset is a declared MapSpec output with its declared axes
+   as dims; and every output that is computed element-wise (a MapSpec with inputs) IS one of the labelled
+   arrays - it is never dropped in favour of a coordinate *)
+Theorem dataset_arrays_spec specs inputs outputs li ds :
+  NoDup (out_names specs) -> consistent (all_aspecs specs) = true ->
+  forallb wf_aspec (all_aspecs specs) = true ->
+  (forall ms a, In ms specs -> In a (outs ms) -> no_colon_axes a) ->
+  dataset_vars specs inputs outputs li = Ok ds ->
+  (forall a, In a (ds_arrays ds) ->
+     In (da_name a) outputs
+     /\ exists ms asp, In ms specs /\ In asp (outs ms) /\ aname asp = da_name a /\ da_dims a = indices asp)
+  /\ (forall o ms, computed_by specs o = Some ms -> In o outputs ->
+        exists a, In a (ds_arrays ds) /\ da_name a = o).
+Proof.
+  intros Hnd Hc Hwf Hnc. unfold dataset_vars. fold (out_names specs).
+  set (mon := filter (fun n => mem_str n outputs) (out_names specs)).
+  destruct (mapM _ mon) as [arrays|e] eqn:A; [|discriminate]. cbn [bind]. intros [= <-]. cbn [ds_arrays].
+  apply mapM_inv in A.
+  assert (Harr : forall a, In a arrays ->
+            In (da_name a) mon /\ dims_of specs (da_name a) = Ok (da_dims a)
+            /\ coords_of specs inputs outputs li (da_name a) = Ok (da_coords a)).
+  { intros a Ha. destruct (Forall2_In_r _ _ _ _ A Ha) as [o [Ho Hf]].
+    destruct (coords_of specs inputs outputs li o) as [cs|] eqn:C; [|discriminate]. cbn [bind] in Hf.
+    destruct (dims_of specs o) as [dm|] eqn:D; [|discriminate]. cbn [bind] in Hf. injection Hf as <-. cbn. auto. }
+  split.
+  - intros a Ha. apply filter_In in Ha as [Ha _]. apply dset_fold_In in Ha as [[]|Ha].
+    destruct (Harr a Ha) as [Hm [Hd _]]. unfold mon in Hm. apply filter_In in Hm as [Hm Ho].
+    apply mem_str_In in Ho. split; [assumption|].
+    unfold out_names in Hm. apply in_flat_map in Hm as [ms [Hms Hm]]. apply in_map_iff in Hm as [asp [E Hasp]].
+    exists ms, asp. repeat split; auto.
+    rewrite <- E in Hd. rewrite (dims_are_axes specs ms asp Hc Hms Hasp (Hnc _ _ Hms Hasp)) in Hd. now injection Hd.
+  - intros o ms Hcomp Ho.
+    assert (Hmon : In o mon).
+    { unfold mon. apply filter_In. split; [|now apply mem_str_In].
+      unfold computed_by in Hcomp. apply find_some in Hcomp as [Hms Hcomp]. apply andb_true_iff in Hcomp as [_ Hcomp].
+      apply mem_str_In in Hcomp. unfold out_names. apply in_flat_map. now exists ms. }
+    destruct (Forall2_In_l _ _ _ _ A Hmon) as [a0 [Ha0 Hf]].
+    assert (Hn0 : da_name a0 = o).
+    { destruct (coords_of specs inputs outputs li o); [|discriminate]. cbn [bind] in Hf.
+      destruct (dims_of specs o); [|discriminate]. cbn [bind] in Hf. now injection Hf as <-. }
+    assert (Hhas : In o (map da_name (fold_left dset_da arrays []))).
+    { apply dset_fold_has. right. apply in_map_iff. now exists a0. }
+    apply in_map_iff in Hhas as [a [Hna Ha]]. exists a. split; [|assumption].
+    apply filter_In. split; [assumption|]. apply negb_true_iff, mem_str_false. rewrite Hna.
+    intros Hin. apply in_flat_map in Hin as [a' [Ha' Hin]]. apply in_map_iff in Hin as [c [Hcn Hcin]].
+    apply dset_fold_In in Ha' as [[]|Ha']. destruct (Harr a' Ha') as [_ [_ Hcs]].
+    destruct (coords_of_name _ _ _ _ _ _ _ Hcs Hcin) as [Hjoin Hne].
+    (* o = join ":" srcs with ':'-free o forces srcs = [o], but sources are never computed *)
+    assert (Hofree : mem_char ":"%char o = false).
+    { unfold computed_by in Hcomp. apply find_some in Hcomp as [Hms Hcomp]. apply andb_true_iff in Hcomp as [_ Hcomp].
+      apply mem_str_In in Hcomp. apply in_map_iff in Hcomp as [asp [<- Hasp]].
+      apply (wf_names_nocolon specs Hwf). unfold all_aspecs. apply in_flat_map. exists ms. split; [assumption|].
+      apply in_or_app. now right. }
+    assert (Hsfree : forall n, In n (co_srcs c) -> mem_char ":"%char n = false).
+    { intros n Hn. pose proof (coords_of_srcs _ _ _ _ _ _ _ _ Hnd Hcs Hcin Hn) as _.
+      (* sources occur in the specs: they are names of the target *)
+      unfold coords_of in Hcs. destruct (coords_raw_of specs inputs outputs li (da_name a')) as [raw|] eqn:R; [|discriminate].
+      cbn [bind] in Hcs. injection Hcs as Hcs. rewrite <- Hcs in Hcin. apply coords_dict_sub in Hcin.
+      unfold coords_raw_of in R. destruct (trace specs) as [tr|]; [|discriminate]. cbn [bind] in R.
+      destruct (existsb _ (target_of tr (da_name a'))); [discriminate|].
+      destruct (existsb (fun na => negb (mem_str (fst na) (map aname (all_aspecs specs)))) (target_of tr (da_name a'))) eqn:Ex;
+        [discriminate|]. injection R as <-.
+      unfold coords_raw in Hcin. apply in_flat_map in Hcin as [[ax names] [Hg Hcg]].
+      apply group_coords_sub in Hcg as [_ Hsub]. apply Hsub in Hn. cbn [snd] in Hn.
+      apply (In_dget key_eqb key_eqb_eq) in Hg; [|apply group_NoDup].
+      assert (Hk : In (n, ax) (kept_of specs inputs li (target_of tr (da_name a')))) by (apply group_get; now exists names).
+      unfold kept_of in Hk. apply filter_In in Hk as [Hk _].
+      destruct (mem_str n (map aname (all_aspecs specs))) eqn:M.
+      - apply mem_str_In, in_map_iff in M as [asp [<- Hasp]]. now apply (wf_names_nocolon specs Hwf).
+      - exfalso. assert (existsb (fun na => negb (mem_str (fst na) (map aname (all_aspecs specs)))) (target_of tr (da_name a')) = true).
+        { apply existsb_exists. exists (n, ax). split; [assumption|]. cbn. now rewrite M. }
+        congruence. }
+    assert (Hsplit : co_srcs c = [o]).
+    { rewrite <- (split_join ":"%char (co_srcs c) Hne Hsfree).
+      change [":"%char] with (s ":"). rewrite <- Hjoin, Hcn. now apply split_char_free. }
+    assert (Hno : computed_by specs o = None).
+    { apply (coords_of_srcs _ _ _ _ _ _ c o Hnd Hcs Hcin). rewrite Hsplit. now left. }
+    congruence.
+Qed.
